@@ -32,3 +32,28 @@ Definition up_items (ms : list msg) : list bytes := [49] :: map enc ms.
 Definition master_reads (items : list bytes) (nframes : nat) : bytes * list msg :=
   let '(b, s1) := cf_read Z 1 (cf_init Z items) in
   (b, fst (pdecode (S nframes) s1)).
+
+(* ---- the control channel: a strict request / answer protocol (ProxyIO._controll, serve_proxy_io.control) ----
+   master: send(event); answer := receive()       forwarder: performs the operation on sub_io, sends one answer.
+   The forwarder is modelled as answering every request in arrival order (its callback runs under the receive lock). *)
+Inductive cev := EvWait | EvKill | EvAddr | EvCloseWrite.
+Inductive cans := AExit (code : Z) | ANone | AAddr.
+Definition answer_of (e : cev) (code : Z) : cans :=
+  match e with EvWait => AExit code | EvKill => ANone | EvAddr => AAddr | EvCloseWrite => ANone end.
+
+Record pcfg := { every_request_awaits_its_answer : bool }.   (* false: close_write sends RIO_CLOSE_WRITE without receiving *)
+
+(* state: answers queued on the master's side of the control channel, and what each master call returned *)
+Record ctl := { pending : list cans; returned : list (cev * cans) }.
+Definition ctl_call (c : pcfg) (code : Z) (s : ctl) (e : cev) : ctl :=
+  (* the request travels, the forwarder appends its answer; the master then takes the FIRST queued answer -- unless this
+     call does not wait at all *)
+  let q := pending s ++ [answer_of e code] in
+  match e, every_request_awaits_its_answer c with
+  | EvCloseWrite, false => {| pending := q; returned := returned s |}
+  | _, _ => match q with
+            | a :: r => {| pending := r; returned := returned s ++ [(e, a)] |}
+            | [] => s
+            end
+  end.
+Definition ctl_run (c : pcfg) (code : Z) (es : list cev) : ctl := fold_left (ctl_call c code) es {| pending := []; returned := [] |}.
